@@ -15,7 +15,7 @@ import sys
 import threading
 import time
 
-OUTCOMES = ('done', 'failed', 'raise', 'none', 'notpair', 'badstatus', 'badupdate', 'waiting', 'corrupt')
+OUTCOMES = ('done', 'failed', 'raise', 'none', 'notpair', 'badstatus', 'badupdate', 'emptybadupdate', 'waiting', 'corrupt')
 HANG_S = 6.0
 
 
@@ -54,6 +54,8 @@ def _mk_tasks(n, edges, outcomes, log, gate=None):
                 return payload, 'finished'
             if o == 'badupdate':
                 return 17, TaskStatus.DONE
+            if o == 'emptybadupdate':
+                return [], TaskStatus.DONE          # not a mapping, and falsy
             if o == 'waiting':
                 return payload, TaskStatus.WAITING
             if o == 'corrupt':
